@@ -12,6 +12,11 @@ C12.rsa     an RSA exponent / modulus of 1 to 512 octets (4096 bits, RFC 3110
             section 2) is accepted, longer or empty ones are refused.
 C12.tag     Dnskey::key_tag reads all four RDATA fields, and every octet of the public
             key contributes (no exact-chunk walk that drops a trailing odd octet).
+C12.types   every record type whose RDATA names RFC 4034 6.2 (as corrected by RFC
+            6840 5.1) wants lower-cased in the signed octets has a typed variant
+            in ZoneRecordData -- a type without one is held as UnknownRecordData,
+            whose canonical form is its octets as they are.  (What the typed
+            variants lower-case is C05.lower.)
 C12.labels  the RRSIG Labels value discounts only a *leftmost* wildcard label
             and the root label; the validator compares it against the owner's
             label count without the root.
@@ -39,6 +44,7 @@ def run(ctx):
     rule_digest(ctx, F)
     rule_rsa(ctx, F)
     rule_tag(ctx, F)
+    rule_types(ctx, F)
     # both sides sort the RRset with canonical_cmp: its agreement with the canonical form is part of "signatures verify"
     import c04
     c04.rule_canon(ctx, F)
@@ -332,3 +338,36 @@ def rule_tag(ctx, F):
     ctx.ob(R, b, "no octet of the public key is left out of the sum", not exact or bool(rem),
            "Dnskey::key_tag walks the public key with %s and never looks at the remainder: the last octet of an "
            "odd-length key (Ed448, some RSA keys) does not enter the key tag" % (exact[0].split("::")[-1] if exact else ""))
+
+
+# RFC 4034 6.2 item 3, corrected by RFC 6840 5.1 (HINFO and NSEC do not belong in the list)
+RFC4034_LOWER = ["Ns", "Md", "Mf", "Cname", "Soa", "Mb", "Mg", "Mr", "Ptr", "Minfo", "Mx", "Rp", "Afsdb", "Rt", "Sig",
+                 "Px", "Nxt", "Naptr", "Kx", "Srv", "Dname", "A6", "Rrsig"]
+TYPES_AUDIT = {
+    "Sig": "obsolete (RFC 3755): replaced by RRSIG, never part of a signed RRset in a DNSSEC-bis zone",
+    "Nxt": "obsolete (RFC 3755): replaced by NSEC",
+    "A6": "historic (RFC 6563)",
+}
+
+
+def rule_types(ctx, F):
+    R = "C12.types"
+    ctx.floor(R, 16)
+    adt = next((a for p, a in F.adts.items() if p == "rdata::ZoneRecordData"), None)
+    if not ctx.anchor(R, "enum rdata::ZoneRecordData", adt is not None and len(adt["variants"]) >= 30):
+        return
+    have = {v["name"] for v in adt["variants"]}
+    unk = [b for p, b in F.bodies.items() if re.search(r"UnknownRecordData<\w+> as base::rdata::ComposeRecordData>::compose_canonical_rdata$", p)]
+    if ctx.anchor(R, "UnknownRecordData::compose_canonical_rdata", len(unk) == 1):
+        lowers = [tt for sb, bb, tt in sigs.callees_deep(F, unk[0], depth=2) if "compose_canonical" in (tt["fn"] or "") and "ToName" in (tt["fn"] or "")]
+        ctx.ob(R, unk[0], "(premise) record data of a type without a variant is signed as it is", not lowers,
+               "UnknownRecordData now lower-cases names: the table below needs a new look", nontrivial=False)
+    for name in RFC4034_LOWER:
+        if name in TYPES_AUDIT:
+            ctx.ob(R, "rdata::ZoneRecordData", "%s: no typed variant needed" % name.upper(), True, "", nontrivial=False, detail=TYPES_AUDIT[name])
+            continue
+        ctx.ob(R, "rdata::ZoneRecordData", "%s has a typed variant that can lower-case its names" % name.upper(), name in have,
+               "ZoneRecordData has no variant for %s, which RFC 4034 6.2 lists among the types whose embedded names are "
+               "lower-cased in the signed octets: such a record is an UnknownRecordData, is signed with the names as written, "
+               "and the signature fails at a validator after a (legitimate) case change of the RDATA name -- and at every "
+               "validator that implements the RFC" % name.upper())
